@@ -1539,6 +1539,12 @@ def _features(case: dict, impl: dict) -> set[str]:
             n = e[2]
             before, after = states_at.get(n, {}), e[3]
             done = [t for t, s in after.items() if s == f'R{n}']
+            for n0, c0 in open_calls.items():
+                op0 = content.get(n0)
+                if n0 < n and op0 and any(states_at.get(n0, {}).get(t) == 'P' and t in reqs and
+                                          _spec_match(reqs[t][2], op0[1], op0[2], op0[3]) for t in done):
+                    # an earlier message that answers the request too is still being handled (slow handlers)
+                    feats.add('h:overtaken-by-later-message-on-other-connection')
             if done:
                 feats.add('completed-by-message')
                 op = content.get(n)
